@@ -107,16 +107,36 @@ struct TtxLine { uint8_t b[42]; };
 struct Frame { uint8_t f1[2], f2[2]; std::vector<TtxLine> ttx; double ts = 0; };
 static uint8_t par(int c) { return tx::odd_parity((uint8_t)c); }
 
-static std::vector<Frame> make_caption_stream(uint64_t seed, int nframes) {
+static std::vector<Frame> make_caption_stream(uint64_t seed, int nframes, bool with_xds = false) {
   std::vector<std::pair<int, int>> pr[2];
   Rng r(seed, "caption");
   for (int f = 0; f < 2; f++) {
     auto& v = pr[f];
     auto ctl = [&](int ch2, int b1, int b2) { int c = b1 | (ch2 ? 8 : 0); v.push_back({c, b2}); if (f == 0) v.push_back({c, b2}); };
     auto text = [&](int n) { for (int i = 0; i < n; i += 2) { int a = 0x41 + (int)r.below(26), b = (i + 1 < n) ? (r.chance(1, 5) ? 0x20 : 0x61 + (int)r.below(26)) : 0; v.push_back({a, b}); } };
+    // XDS packet on field 2 (current class): start pair, payload, terminator with checksum; sent twice, the decoder
+    // announces on the second identical reception
+    auto xds = [&](int type, std::initializer_list<int> payload) {
+      for (int rep = 0; rep < 2; rep++) {
+        int sum = 0x01 + type;
+        v.push_back({0x01, type});
+        std::vector<int> pl(payload); if (pl.size() & 1) pl.push_back(0);
+        for (size_t i = 0; i < pl.size(); i += 2) { v.push_back({pl[i], pl[i + 1]}); sum += pl[i] + pl[i + 1]; }
+        sum += 0x0F;
+        v.push_back({0x0F, (128 - (sum & 127)) & 127});
+      }
+    };
     while ((int)v.size() < nframes) {
       int ch2 = (int)r.below(2);
       int misc = f == 0 ? 0x14 : 0x15;
+      if (f == 1 && with_xds && r.chance(1, 4)) {
+        // programme information: an aspect ratio with non-default geometry, then (often) another programme id number -
+        // the decoder revokes the aspect and announces the new programme from inside vbi_decode()
+        if (r.chance(1, 2)) xds(0x09, {0x40 + 1 + (int)r.below(30), 0x40 + 1 + (int)r.below(30)});
+        if (r.chance(2, 3)) xds(0x01, {0x40 + (int)r.below(60), 0x40 + (int)r.below(24), 0x40 + 1 + (int)r.below(28), 0x40 + 1 + (int)r.below(12)});
+        if (r.chance(1, 3)) xds(0x03, {'N', 'E', 'W', 'S', ' ', 0x41 + (int)r.below(26)});
+        continue;
+      }
       switch (r.below(6)) {
         case 0: case 1: ctl(ch2, misc, 0x20); ctl(ch2, 0x11 + (int)r.below(7), 0x40 + (int)r.below(32)); text(2 + (int)r.below(14)); ctl(ch2, misc, 0x2F); break;  // pop-on: RCL PAC text EOC
         case 2: case 3: ctl(ch2, misc, 0x25 + (int)r.below(3)); ctl(ch2, 0x14, 0x60 + (int)r.below(16)); text(4 + (int)r.below(20)); ctl(ch2, misc, 0x2D); break;   // roll-up: RUx PAC text CR
@@ -198,6 +218,7 @@ struct C20 : World {
     if (mode == 0) {
       p.knobs["frames"] = (int64_t)r.range(20, thorough ? 400 : 100);
       p.knobs["handler_fetches"] = r.chance(1, 3);
+      p.knobs["xds"] = r.chance(1, 2);   // XDS programme information on field 2: ASPECT / PROG_INFO events from inside vbi_decode()
       // Teletext on the same decoder (half of the runs), with damaged / foreign headers and dropped frames
       p.knobs["ttx_pct"] = r.chance(1, 2) ? 0 : 20 + (int64_t)r.below(81);
       p.knobs["ttx_fault_pct"] = r.chance(1, 4) ? 0 : 2 + (int64_t)r.below(30);
@@ -240,15 +261,17 @@ struct C20 : World {
     CapRun& r = *gc;
     if (ev->type == VBI_EVENT_TTX_PAGE) { HarnessScope hs; r.ctx.count("ttx_page_events"); return; }
     if (ev->type == VBI_EVENT_NETWORK) { HarnessScope hs; r.ctx.count("network_events_raised_by_the_decoding_thread"); return; }
-    if (ev->type != VBI_EVENT_CAPTION || !r.handler_fetches) return;
+    if (ev->type == VBI_EVENT_ASPECT || ev->type == VBI_EVENT_PROG_INFO) { HarnessScope hs; r.ctx.count(ev->type == VBI_EVENT_ASPECT ? "aspect_events" : "prog_info_events"); }
+    else if (ev->type != VBI_EVENT_CAPTION) return;
+    if (!r.handler_fetches) return;
     vbi_page pg; memset(&pg, 0, sizeof pg);
-    vbi_bool ok = vbi_fetch_cc_page(r.dec, &pg, ev->ev.caption.pgno, TRUE);
+    vbi_bool ok = vbi_fetch_cc_page(r.dec, &pg, ev->type == VBI_EVENT_CAPTION ? ev->ev.caption.pgno : 1 + (int)(r.handler_results.size() % 8), TRUE);
     HarnessScope hs;
     r.handler_results.push_back(page_hash(ok, pg));
   }
   static vbi_decoder* cap_new_decoder() {
     vbi_decoder* d = vbi_decoder_new();
-    if (d) vbi_event_handler_register(d, VBI_EVENT_CAPTION | VBI_EVENT_TTX_PAGE | VBI_EVENT_NETWORK, cap_handler, nullptr);
+    if (d) vbi_event_handler_register(d, VBI_EVENT_CAPTION | VBI_EVENT_TTX_PAGE | VBI_EVENT_NETWORK | VBI_EVENT_ASPECT | VBI_EVENT_PROG_INFO, cap_handler, nullptr);
     return d;
   }
   static void cap_feed(CapRun& r, int i) {
@@ -268,7 +291,7 @@ struct C20 : World {
 
   void run_caption(const Plan& plan, RunCtx& ctx) {
     CapRun R(ctx, plan); gc = &R;
-    R.stream = make_caption_stream((uint64_t)plan.knob("stream_seed", 1), 1 + (int)absmod(plan.knob("frames", 40) - 1, 600));
+    R.stream = make_caption_stream((uint64_t)plan.knob("stream_seed", 1), 1 + (int)absmod(plan.knob("frames", 40) - 1, 600), plan.knob("xds", 0) != 0);
     if (plan.knob("ttx_pct", 0) > 0) add_teletext(R.stream, (uint64_t)plan.knob("stream_seed", 1), (int)absmod(plan.knob("ttx_pct", 0), 101), (int)absmod(plan.knob("ttx_fault_pct", 0), 101), ctx);
     R.handler_fetches = plan.knob("handler_fetches", 0) != 0;
     R.lin.ctx = &ctx;
